@@ -222,3 +222,28 @@ def _mk_string(k):
 
 for _k in (0, 1, 2, 3, 4):          # len = 4: thorough tier only
     _mk_string(_k)
+
+
+# ------------------------------------------------------------------ the string level, other direction: char_ascii_to_akai over bytes
+# (the seed `bytes.maketrans` / translate variant let invalid bytes below 0x29 through: every byte is converted by the per-byte table, and
+# ONE invalid byte anywhere rejects the whole name)
+VALID_ASCII = "((48 <= {b} and {b} <= 57) or (65 <= {b} and {b} <= 90) or {b} == 32 or {b} == 35 or {b} == 43 or {b} == 45 or {b} == 46)"
+TO_AKAI = "ite({b} <= 57 and {b} >= 48, {b} - 48, ite({b} == 32, 10, ite({b} >= 65 and {b} <= 90, {b} - 65 + 11, ite({b} == 35, 37, ite({b} == 43, 38, ite({b} == 45, 39, 40))))))"
+
+
+def _mk_enc(k):
+    @contract(AS + f":char_ascii_to_akai[bytes,len={k}]", source_key=AS + ":char_ascii_to_akai", props=["C18"], proof_only=True)
+    def _enc(c):
+        c.param("str_in", ("clist", ["byte"] * k))          # a byte string of k bytes (any values 0..255)
+        c.use = {AS + ":_char_format_convert": "inline", AS + ":_char_format_convert_byte": "inline"}
+        valid = " and ".join(VALID_ASCII.format(b=f"str_in[{i}]") for i in range(k)) or "True"
+        c.raises("InvalidCharacter", f"not ({valid})", iff=True)
+        c.ensures(f"len(result) == {k}", "one-code-per-character")
+        for i in range(k):
+            c.ensures(f"len(result) == {k} and result[{i}] == " + TO_AKAI.format(b=f"str_in[{i}]"), f"code-{i}-is-the-table-image-of-character-{i}")
+        c.modifies()
+    return _enc
+
+
+for _k in (0, 1, 2, 3):
+    _mk_enc(_k)
